@@ -135,6 +135,7 @@ class HedTag:
                 tag_entry = self._schema.get_tag_entry(new_tag_val, schema_namespace=self.schema_namespace)
 
             self._schema_entry = tag_entry
+            self.tag_terms = tag_entry.tag_terms if tag_entry else tuple()
         else:
             raise ValueError("Cannot set unidentified tags")
 
